@@ -246,6 +246,9 @@ func runInventoryCmd(args []string) {
 	mapFuncs := map[string]bool{}
 	mapFields := map[string]bool{}
 	funcDecls := map[string]*ast.FuncDecl{} // dir + "." + name -> declaration (helpers called from a loop body)
+	// struct types with a method that takes a Context: keepers, message servers, decorators, modules, processors - the
+	// objects that live as long as the process.  Plain value types (no such method) hold no state between calls.
+	longLived := map[string]bool{"app/ante.HandlerOptions": true}
 	for _, d := range inventoryDirs {
 		files, _ := filepath.Glob(filepath.Join(*repo, d, "*.go"))
 		for _, f := range files {
@@ -265,6 +268,25 @@ func runInventoryCmd(args []string) {
 					}
 					if x.Body != nil {
 						funcDecls[d+"."+x.Name.Name] = x
+					}
+					if x.Recv != nil && len(x.Recv.List) == 1 && x.Type.Params != nil {
+						for _, pf := range x.Type.Params.List {
+							if strings.Contains(exprText(fset, pf.Type), "Context") {
+								rt := x.Recv.List[0].Type
+								if st, ok := rt.(*ast.StarExpr); ok {
+									rt = st.X
+								}
+								switch g := rt.(type) {
+								case *ast.IndexListExpr:
+									rt = g.X
+								case *ast.IndexExpr:
+									rt = g.X
+								}
+								if id, ok := rt.(*ast.Ident); ok {
+									longLived[d+"."+id.Name] = true
+								}
+							}
+						}
 					}
 				case *ast.StructType:
 					for _, fl := range x.Fields.List {
@@ -315,7 +337,7 @@ func runInventoryCmd(args []string) {
 				for _, sp := range gd.Specs {
 					switch x := sp.(type) {
 					case *ast.TypeSpec:
-						if st, ok := x.Type.(*ast.StructType); ok {
+						if st, ok := x.Type.(*ast.StructType); ok && longLived[d+"."+x.Name.Name] {
 							for _, fl := range st.Fields.List {
 								names := []string{"(embedded)"}
 								if len(fl.Names) > 0 {
